@@ -487,6 +487,7 @@ fn distinct_time_case() -> impl Strategy<Value = JobCase> {
 		1 => Just(Op::SetErrHandler),
 		1 => Just(Op::UnsetErrHandler),
 		1 => Just(Op::DropHandle),
+		1 => Just(Op::RawContinue),
 	];
 	let gap = prop_oneof![4 => Just(0u32), 3 => Just(10), 2 => Just(20), 2 => Just(50), 2 => Just(100), 3 => Just(20_000)];
 	let step = (gap, op).prop_map(|(gap, op)| Step { gap, op, waiters: 1 });
